@@ -17,6 +17,55 @@ fn main() {
                 println!("{}", p.id());
             }
         }
+        "gen-corpus" => {
+            // write the committed seed corpora of the fuzz targets (deterministic)
+            use dtr_verif::choice::{mix3, Ch};
+            let root = dtr_verif::engine::verif_root().join("harness").join("corpus");
+            let streams = |k: u64, len: usize| -> Vec<u32> { (0..len).map(|i| mix3(k, 7, i as u64) as u32).collect() };
+            let mut n = 0;
+            for k in 0..40u64 {
+                let b = dtr_verif::gen::gen_case(&mut Ch::new(&streams(k, 30 + (k as usize * 7) % 200)), &dtr_verif::props::c12::break_cfg());
+                let lines = dtr_verif::print::program_lines(&b.prog);
+                let r = dtr_verif::print::render(&lines, &mut Ch::new(&streams(k + 1000, if k % 2 == 0 { 0 } else { 120 })), dtr_verif::print::LayoutOpts::ALL);
+                std::fs::write(root.join("parse_bytes").join(format!("gen-{k:02}.txt")), r.text).unwrap();
+                n += 1;
+            }
+            // the repository's own test sources
+            for f in ["74162.dig", "74181.dig", "74779.dig", "Counter.dig", "adder.dig"] {
+                let text = std::fs::read_to_string(format!("/repo/tests/data/{f}")).unwrap();
+                std::fs::write(root.join("dig_bytes").join(f), &text).unwrap();
+                if let Ok(file) = digital_test_runner::dig::File::parse(&text) {
+                    for (i, t) in file.test_cases.iter().enumerate() {
+                        std::fs::write(root.join("parse_bytes").join(format!("{f}-{i}.txt")), &t.source).unwrap();
+                        n += 1;
+                    }
+                }
+            }
+            for k in 0..12u64 {
+                let mut out = dtr_verif::engine::CaseOut::new();
+                let s: dtr_verif::engine::Streams = [streams(k + 50, 200), streams(k + 70, 40), vec![0, 0]];
+                let c = dtr_verif::props::c16::C16;
+                use dtr_verif::engine::Property;
+                out = c.run(&s);
+                if let Some((_, doc)) = out.render.iter().find(|(k, _)| *k == "document") {
+                    std::fs::write(root.join("dig_bytes").join(format!("gen-{k:02}.dig")), doc).unwrap();
+                }
+            }
+            for k in 0..24u64 {
+                let len = 40 + (k as usize * 37) % 600;
+                let bytes: Vec<u8> = (0..len).map(|i| mix3(k, 3, i as u64) as u8).collect();
+                std::fs::write(root.join("run_structured").join(format!("seed-{k:02}.bin")), bytes).unwrap();
+            }
+            println!("wrote corpora ({n} parse seeds)");
+        }
+        "show-c17" => {
+            let text = std::fs::read_to_string(&args[1]).unwrap();
+            let v: serde_json::Value = serde_json::from_str(&text).unwrap();
+            let st: Vec<Vec<u32>> = v["streams"].as_array().unwrap().iter().map(|a| a.as_array().unwrap().iter().map(|x| x.as_u64().unwrap() as u32).collect()).collect();
+            let b = dtr_verif::gen::gen_case(&mut dtr_verif::choice::Ch::new(&st[0]), &dtr_verif::props::c17::random_cfg());
+            println!("{}", dtr_verif::print::canonical(&b.prog).text);
+            println!("{}", dtr_verif::model::describe_sigs(&b.sigs));
+        }
         "show-c10" => {
             // print the chaos program of a stored case without running it
             let text = std::fs::read_to_string(&args[1]).unwrap();
